@@ -449,6 +449,36 @@ def oracle(ctx):
                 if errs:
                     ctx.violation('concurrent render() calls return something else than alone (random preemption)', {'round': rnd}, actual=errs[:3])
                     break
+            # threads that *compile* different templates at the same moment (each its own object, no sharing at all): translation blocks
+            # with named children, nested, next to plain text — every render equals the render of that source compiled alone
+            pool = []
+            for i in range(6):
+                pool.append('<div><p>plain %d ${a}</p><span>text</span></div>' % i)
+                pool.append('<div i18n:domain="d%d"><p i18n:translate="">Hello <b i18n:name="who">${a}</b>, <i i18n:name="n%d">x<u i18n:translate="">in '
+                            '<em i18n:name="who">w</em></u></i>!</p><p>after ${a}</p></div>' % (i, i))
+            solo = {s: PageTemplate(s)(a='A') for s in pool}
+            errs2 = []
+
+            def compiler(seed):
+                import random
+                rr = random.Random(seed)
+                for _ in range(25):
+                    s = rr.choice(pool)
+                    try:
+                        o = PageTemplate(s)(a='A')
+                    except BaseException as e:
+                        o = 'raised %s: %s' % (type(e).__name__, str(e).split('\n')[0][:60])
+                    if o != solo[s]:
+                        errs2.append({'src': s, 'got': o, 'alone': solo[s]})
+            ths = [threading.Thread(target=compiler, args=(900 + i,)) for i in range(6)]
+            for th in ths:
+                th.start()
+            for th in ths:
+                th.join()
+            ctx.count('evaluations', 6 * 25)
+            if errs2:
+                ctx.violation('templates compiled by several threads at the same moment (no shared object) render differently than compiled alone',
+                              {'threads': 6, 'templates': 'plain and i18n:translate/i18n:name blocks'}, actual=errs2[:3])
         finally:
             sys.setswitchinterval(old)
     finally:
